@@ -331,6 +331,72 @@ def _prefix_causes(prefix, extra):
     return causes
 
 
+def _own(op):
+    """the single name a mutating operation is about (None for prefix / regex removal)"""
+    if op["op"] in ("register", "set_metadata"):
+        return op["name"]
+    if op["op"] == "remove" and op["by"] == "name":
+        return op["arg"]
+    return None
+
+
+def _touch(touched, op):
+    for f in ("name", "arg"):
+        if isinstance(op.get(f), str) and (f == "name" or op.get("by") == "name"):
+            touched.add(op[f])
+
+
+def _own_tags(op, before):
+    own = _own(op)
+    if own is None:
+        return []
+    return sorted(set(op.get("meta") or ()) | set(before[own][1] if own in before else ()))
+
+
+def _expected_answers(state, touched, plain, tags):
+    """what a live name server holding exactly the map `state` answers to the interrogation
+    (lookup with metadata of every name in touched, lookup without metadata of every name in plain)"""
+    a = {"list": ("ok", dict(state)), "count": ("ok", len(state))}
+    for n in touched:
+        a["lookup+meta " + repr(n)] = ("ok", state[n]) if n in state else _NE
+    for n in plain:
+        a["lookup " + repr(n)] = ("ok", state[n][0]) if n in state else _NE
+    if tags:
+        ts = frozenset(tags)
+        a["yplookup-any"] = ("ok", {n: v for n, v in state.items() if ts & v[1]})
+    return a
+
+
+def _interrogate(ns, touched, plain, tags, listing=None):
+    """ask the live name server instance (no reopen): full listing, count, lookups, yplookup"""
+    a = {"list": listing if listing is not None else _listing(ns), "count": _outcome(ns.count)}
+    for n in touched:
+        a["lookup+meta " + repr(n)] = _outcome(lambda: ns.lookup(n, return_metadata=True))
+    for n in plain:
+        a["lookup " + repr(n)] = _outcome(lambda: ns.lookup(n))
+    if tags:
+        a["yplookup-any"] = _outcome(lambda: ns.yplookup(meta_any=list(tags), return_metadata=True))
+    return a
+
+
+def _lookup_list_disagree(a, touched):
+    """names for which lookup and list of the same live instance contradict each other"""
+    if a["list"][0] != "ok" or not isinstance(a["list"][1], dict):
+        return []
+    lst = a["list"][1]
+    bad = []
+    for n in sorted(touched):
+        lk = a["lookup+meta " + repr(n)]
+        if (lk == _NE and n not in lst) or (lk[0] == "ok" and n in lst and lk[1] == lst[n]):
+            continue
+        bad.append(n)
+    return bad
+
+
+def _answers_diff(a, b):
+    return "; ".join("%s: %s vs %s" % (k, _canon(a[k]), _canon(b.get(k))) for k in sorted(a) if a[k] != b.get(k))
+
+
 # ------------------------------------------------------------------------------------------ the world
 class NsModelWorld(World):
     PROPERTY = "C14"
@@ -360,7 +426,7 @@ class NsModelWorld(World):
                    "selectors that are falsy ('' / empty list) mean 'not given'",
                    "metadata collections contain only str; URIs are valid PYRO URIs",
                    "remove() is called with exactly one selector"]
-    QUICK_RUNS = 12000
+    QUICK_RUNS = 7000
     CHUNK = 150
     SHRINK_LISTS = ["ops"]
 
@@ -464,8 +530,10 @@ class NsModelWorld(World):
         mem = NS.NameServer(NS.MemoryStorage())
         sql = NS.NameServer(NS.SqlStorage(path))
         n_mut = n_query = 0
+        touched = set()
         for i, op in enumerate(plan["ops"]):
             kind = _kind(op)
+            _touch(touched, op)
             if kind == "reopen":
                 ctx.probe("reopen")
                 ctx.sched.ev("op", i, kind)
@@ -514,9 +582,30 @@ class NsModelWorld(World):
                 if l_mem != l_model:
                     break
                 continue
+            # the live instances (no reopen) answer lookup / count / yplookup like the map after the operation
+            tags = _own_tags(op, before)
+            names = sorted(touched)
+            # lookup without metadata: the names the operation is about (named by it, or changed by it)
+            plain = sorted(set(n for n in set(before) | set(model) if before.get(n) != model.get(n))
+                           | ({_own(op)} if _own(op) is not None else set()))
+            a_model = _expected_answers(model, names, plain, tags)
+            a_mem, a_sql = _interrogate(mem, names, plain, tags, l_mem), _interrogate(sql, names, plain, tags, l_sql)
+            for who, a in (("memory", a_mem), ("sqlite", a_sql)):
+                bad = _lookup_list_disagree(a, names)
+                if bad:
+                    ctx.violate("lookup-list-disagree", kind, "after %s %s on %s the %s name server's lookup and list disagree on %s: %s"
+                                % (kind, self._args(op), _canon(before), who, bad, _answers_diff(a, a_model)))
+            if a_mem != a_sql:
+                ctx.violate("backend-divergence", kind, "after %s %s on %s the live name servers answer differently (memory vs sqlite): %s"
+                            % (kind, self._args(op), _canon(before), _answers_diff(a_mem, a_sql)))
+                break
+            if a_mem != a_model:
+                ctx.violate("model-divergence", kind, "after %s %s on %s both live name servers deviate from the map (back-ends vs map): %s"
+                            % (kind, self._args(op), _canon(before), _answers_diff(a_mem, a_model)))
+                break
             if faulty:
                 ctx.sched.ev("stmts", i, tuple(stmts))
-                if not self._fault_points(ctx, fac, tmp, path, op, kind, pre, stmts, before, dict(model)):
+                if not self._fault_points(ctx, fac, tmp, path, op, kind, pre, stmts, before, dict(model), names, plain, tags):
                     break
         if faulty:
             ctx.nontrivial = bool(ctx.faults)
@@ -539,7 +628,7 @@ class NsModelWorld(World):
         with open(path, "wb") as f:
             f.write(data)
 
-    def _fault_points(self, ctx, fac, tmp, path, op, kind, pre, stmts, before, after):
+    def _fault_points(self, ctx, fac, tmp, path, op, kind, pre, stmts, before, after, names, plain, tags):
         """returns False if the history cannot be continued"""
         post = self._read(path)
         l_before, l_after = ("ok", before), ("ok", after)
@@ -551,11 +640,14 @@ class NsModelWorld(World):
                         % (kind, self._args(op), _canon(before), _canon(l), _canon(l_after)))
             return False
         commits = [j for j, s in enumerate(stmts) if s == "COMMIT"]
+        a_before = _expected_answers(before, names, plain, tags)
         ok = True
         # ---- (a) statement k raises sqlite3.OperationalError
         for k in range(len(stmts)):
             self._restore(path, pre)
             ns = NS.NameServer(NS.SqlStorage(path))
+            for n in names:                     # a live server has answered lookups before (matters if the storage caches)
+                _outcome(lambda: ns.lookup(n, return_metadata=True))
             fac.arm("fail", k)
             try:
                 out = _outcome(lambda: _call(ns, op))
@@ -571,6 +663,17 @@ class NsModelWorld(World):
             if out != _NE:
                 ctx.violate("failed-op-no-namingerror", kind, "%s %s on %s with statement %d/%d (%s) failing: outcome %s, expected NamingError"
                             % (kind, self._args(op), _canon(before), k, len(stmts), stmts[k], _canon(out)))
+                ok = False
+            # the live instance that executed the failed operation still answers like the map before it
+            a = _interrogate(ns, names, plain, tags)
+            bad = _lookup_list_disagree(a, names)
+            if bad:
+                ctx.violate("lookup-list-disagree", kind, "%s %s on %s with statement %d/%d (%s) failing: lookup and list of the live name server disagree on %s: %s"
+                            % (kind, self._args(op), _canon(before), k, len(stmts), stmts[k], bad, _answers_diff(a, a_before)))
+                ok = False
+            if a != a_before:
+                ctx.violate("failed-op-visible-in-live-server", kind, "%s %s on %s with statement %d/%d (%s) failing: live name server vs map before the operation: %s"
+                            % (kind, self._args(op), _canon(before), k, len(stmts), stmts[k], _answers_diff(a, a_before)))
                 ok = False
             l = _listing(NS.NameServer(NS.SqlStorage(path)))
             if l != l_before:
